@@ -1183,6 +1183,8 @@ class SE3(SO3):
         """
         if base.isvector(S, 6):
             return cls(base.trexp(base.getvector(S), check=check), check=False)
+        elif base.ismatrix(S, (4, 4)):
+            return cls(base.trexp(S, check=check), check=False)
         else:
             return cls([base.trexp(s, check=check) for s in S], check=False)
             
